@@ -148,6 +148,7 @@ func genC06(tier string) []Scenario {
 	if th {
 		add(batchScn{name: "positional-runs-of-different-size items=3,1,2 c=2 exec=ok|err", n: 3, nByRun: []int{3, 1, 2}, c: 2, shape: shResults, yield: true, execMenu: okOrErrMenu, bound: 0, runs: 3})
 	}
+	sizeSweep(&out, "positional", nil)
 	// ... after a first run that ended badly: an item failed AND post failed (both modes)
 	for _, c := range []int{0, 2} {
 		for _, stop := range []bool{false, true} {
@@ -208,6 +209,7 @@ func genC07(tier string) []Scenario {
 			}
 		}
 	}
+	sizeSweep(&out, "per-item", nil)
 	// an attempt that RETURNS an error Result (nil error) has succeeded: no retry, no fallback
 	for _, c := range []int{0, 2} {
 		sc := batchScn{name: fmt.Sprintf("per-item error-results n=2 c=%d budget=2 fallback=true", c), n: 2, c: c, budget: 2, fb: true,
@@ -436,6 +438,41 @@ func failAtMenu(f int) func(i, k int) []answer {
 	}
 }
 
+// sizesMenu: what the items of a LARGE batch do — the first fails (a Go error), the last returns an
+// error Result, one in the upper half fails too, the rest succeed: no choice anywhere, so a batch
+// of 66 items costs a handful of executions.
+func sizesMenu(n int) func(i, k int) []answer {
+	return func(i, k int) []answer {
+		switch {
+		case i == 0 || (i == n-2 && n > 4):
+			return []answer{{err: itemErr(i%8, k)}}
+		case i == n-1:
+			return []answer{{val: errResultMarker{err: itemErr(i%8, k)}}}
+		}
+		return []answer{{val: okVal(i)}}
+	}
+}
+
+// sizeSweep: batches of 17 … 66 items (beyond every small size, around powers of two), sequential
+// and pooled, both modes: positions, per-item treatment and never-run slots are judged as ever.
+func sizeSweep(out *[]Scenario, tag string, extra func(sc *batchScn)) {
+	for _, n := range []int{17, 18, 33, 34, 65, 66} {
+		for _, c := range []int{0, 1, 2} {
+			if (c == 2 && n > 34) || (c == 1 && n < 65) {
+				continue // two workers: up to 34 items (the schedules multiply); one worker: the largest sizes
+			}
+			for _, stop := range []bool{false, true} {
+				sc := batchScn{name: fmt.Sprintf("%s sizes n=%d c=%d stop=%v", tag, n, c, stop), n: n, c: c, stop: stop, budget: 1, shape: shResults,
+					execMenu: sizesMenu(n), postMenu: postX, bound: 0, chkPositional: true, chkPerItem: true, chkStop: true}
+				if extra != nil {
+					extra(&sc)
+				}
+				*out = append(*out, sc.scenario())
+			}
+		}
+	}
+}
+
 // failAtSetMenu: the items in fs fail, the others succeed
 func failAtSetMenu(fs ...int) func(i, k int) []answer {
 	return func(i, k int) []answer {
@@ -459,6 +496,7 @@ func genC09(tier string) []Scenario {
 		sc.shape = shResults
 		out = append(out, sc.scenario())
 	}
+	sizeSweep(&out, "stop", func(sc *batchScn) { sc.postMenu = postX })
 	// TWO items fail, possibly at the same moment on two workers: each of those workers has then
 	// observed a failure and starts nothing further, whichever of them "won"
 	for _, pr := range [][2]int{{0, 1}, {0, 2}, {1, 2}} {
@@ -670,6 +708,11 @@ func genC11(tier string) []Scenario {
 			add(batchScn{name: fmt.Sprintf("cancel-with-cause n=2 c=%d stop=%v", c, stop), n: 2, c: c, stop: stop, budget: 1, yield: c > 0, execMenu: okMenu, bound: 1, withCause: true, cancel: cancelSpec{kind: 1, lazy: true}})
 		}
 	}
+	// large batches cancelled before they start: every slot of every size carries an error
+	sizeSweep(&out, "cancel-before", func(sc *batchScn) {
+		sc.chkCancel = true
+		sc.cancel = cancelSpec{kind: 1, before: true}
+	})
 	// the same node object after a run that ended badly (an item failed, post failed): the next
 	// run, cancelled before it starts or from inside an item, is judged like any other
 	for _, c := range []int{0, 2} {
